@@ -221,6 +221,20 @@ async fn lreq(caps_a: &CapabilityContext<OpA, Event>, caps_b: &CapabilityContext
     }
 }
 
+/// `Legacy(q)` nodes of a command-API program: realise q through the capabilities, in pre-order.
+pub fn start_legacy_parts(p: &P, caps: &Caps) {
+    if let P::Legacy(q) = p {
+        run_legacy(q, caps);
+        return;
+    }
+    if matches!(p, P::Trigger(..)) {
+        return; // the payload is started by its own update
+    }
+    for c in p.children() {
+        start_legacy_parts(c, caps);
+    }
+}
+
 pub fn run_legacy(p: &P, caps: &Caps) {
     let (ca, cb) = (caps.a.ctx(), caps.b.ctx());
     match p.clone() {
@@ -366,7 +380,13 @@ impl crux_core::App for VApp {
         #[cfg(crux_verif)]
         crux_core::verif::point("app.update");
         let cmd = match event.peel().0 {
-            Event::Start(p) => crate::build::build(p),
+            Event::Start(p) => {
+                start_legacy_parts(p, caps);
+                crate::build::CAPS.with(|c| *c.borrow_mut() = Some((caps.a.ctx(), caps.b.ctx())));
+                let cmd = crate::build::build(p);
+                crate::build::CAPS.with(|c| *c.borrow_mut() = None);
+                cmd
+            }
             Event::StartLegacy(p) => {
                 run_legacy(p, caps);
                 Command::done()
